@@ -199,7 +199,7 @@ fn signo(k: char) -> i32 {
 }
 
 /// Make tokio install its process-wide handlers for the three signals (they stay installed).
-fn warm_up() {
+pub fn warm_up() {
     use tokio::signal::unix::{signal, SignalKind};
     let rt = tokio::runtime::Builder::new_current_thread()
         .enable_all()
